@@ -18,12 +18,12 @@ MODULE = os.path.join(OUT, "harness.wasm")
 # which profiles' portable episodes are interpreted under wasm for which check
 PLAN = {
     #       profiles,                 quick, thorough families per profile
-    "C05": (["C09", "C06", "C08"], 60_000, 1_500_000),
-    "C06": (["C06"], 150_000, 4_000_000),
-    "C07": (["C07"], 150_000, 4_000_000),
-    "C08": (["C08"], 100_000, 3_000_000),
-    "C09": (["C09"], 100_000, 3_000_000),
-    "C14": (["C09", "C08"], 60_000, 1_500_000),
+    "C05": (["C09", "C06", "C08"], 60_000, 500_000),
+    "C06": (["C06"], 150_000, 1_500_000),
+    "C07": (["C07"], 150_000, 1_500_000),
+    "C08": (["C08"], 100_000, 1_000_000),
+    "C09": (["C09"], 100_000, 1_000_000),
+    "C14": (["C09", "C08"], 60_000, 500_000),
 }
 
 _built = False
@@ -61,19 +61,19 @@ def run_profile(exe, owner, profile, seed, total):
     if ref.violation is not None:
         # the native run of the portable episodes found it first
         return {"native_violation": ref}
-    procs = []
+    # a pool of at most NCPU (gen | node) pipelines, each over a bounded range
+    piece = max(500, min(20000, chunk))
+    jobs = []
     i = 0
     while i < total:
-        j = min(total, i + chunk)
-        gen = subprocess.Popen([exe, "gen", "--prop", profile, "--seed", str(seed), "--portable", "--from", str(i),
-                                "--to", str(j)], stdout=subprocess.PIPE, env=D.ENV_BASE)
-        node = subprocess.Popen(["node", os.path.join(WASM_DIR, "run.js"), MODULE], stdin=gen.stdout,
-                                stdout=subprocess.PIPE, stderr=subprocess.PIPE)
-        gen.stdout.close()
-        procs.append((gen, node))
+        j = min(total, i + piece)
+        jobs.append((i, j))
         i = j
+    jobs.reverse()
     out = {"families": 0, "ops": 0, "violation": None}
-    for gen, node in procs:
+    running = []
+
+    def harvest(gen, node):
         so, se = node.communicate()
         gen.wait()
         if node.returncode != 0:
@@ -99,6 +99,22 @@ def run_profile(exe, owner, profile, seed, total):
                            "operation agreed with the reference model)" % (profile, idx))
             if bad and (out["violation"] is None or idx < out["violation"]["family"]):
                 out["violation"] = {"family": idx, "text": bad, "profile": profile}
+
+    while jobs or running:
+        while jobs and len(running) < D.NCPU and out["violation"] is None:
+            lo, hi = jobs.pop()
+            gen = subprocess.Popen([exe, "gen", "--prop", profile, "--seed", str(seed), "--portable", "--from", str(lo),
+                                    "--to", str(hi)], stdout=subprocess.PIPE, env=D.ENV_BASE)
+            node = subprocess.Popen(["node", os.path.join(WASM_DIR, "run.js"), MODULE], stdin=gen.stdout,
+                                    stdout=subprocess.PIPE, stderr=subprocess.PIPE)
+            gen.stdout.close()
+            running.append((gen, node))
+        if not running:
+            break
+        gen, node = running.pop(0)
+        harvest(gen, node)
+        if out["violation"] is not None:
+            jobs = []
     return out
 
 
